@@ -12,7 +12,9 @@ for l in open('/verif/known_findings.txt'):
     if m:
         known.append(m.groups())
 sec = "### 11.3 Findings on the unchanged tree and their disposition (from `known_findings.txt`)\n\n"
-sec += (f"{len(fixed)} genuine defects were repaired with one minimal unguarded `fix:` commit each (the existing suite, unedited, "
+ncommits = len({c for _, c, _ in fixed})
+sec += (f"{ncommits} genuine defects were repaired with one minimal unguarded `fix:` commit each ({len(fixed)} rows below: a commit that "
+        "serves two properties is listed under both; the existing suite, unedited, "
         f"passes after every one: 947 passed), and {len(known)} are recorded as known findings (the check replays the listed input, "
         "prints `KNOWN-FINDING` and exits 0; any violation under another key is still reported). Each fixed defect keeps its replay in "
         "the check's corpus, so a regression is reported again; each known finding has a `_refuted` witness and a `_partial` theorem "
